@@ -61,7 +61,19 @@ class Engine:
         return self.summary(fi, clsbind, inline)
 
     def private_helpers(self, short):
-        return frozenset(q for q, f in self.prog.funcs.items() if f.mod.short == short and f.parent is None and f.cls is None and q.split(".")[-1].startswith("_") and not q.split(".")[-1].startswith("__"))
+        c = self.__dict__.setdefault("_priv", {})
+        if short not in c:
+            out = set()
+            for q, f in self.prog.funcs.items():
+                if f.mod.short != short or f.parent is not None:
+                    continue
+                last = q.split(".")[-1]
+                if f.cls is None and last.startswith("_") and not last.startswith("__"):
+                    out.add(q)
+                elif f.cls is not None and f.cls.startswith("_") and not f.cls.startswith("__"):
+                    out.add(q)  # methods of a private class (a record / book-keeping object)
+            c[short] = frozenset(out)
+        return c[short]
 
     def repo_call(self, qualname, *args, clsbind=None):
         """the term of a call of an anchor function (registers it for expand())"""
